@@ -84,24 +84,89 @@ pub struct A16(pub [u8; 16]);
 #[repr(align(32))]
 pub struct A32(pub [u8; 32]);
 
-// good flavours: sizes 4 .. 200 bytes, alignments 4 .. 32
+/// The object a bad cast of a ZERO-SIZED type redirects to (never written: the harness does not
+/// write through a trait object that reports a foreign tag / address).
+pub struct Fallback {
+    pub pad: [u64; 4],
+    pub v: u32,
+}
+impl Obj for Fallback {
+    fn tag(&self) -> u32 {
+        99
+    }
+    fn addr(&self) -> usize {
+        self as *const Self as usize
+    }
+    fn val(&self) -> u32 {
+        self.v
+    }
+    fn bump(&mut self) -> u32 {
+        self.v
+    }
+}
+pub static FALLBACK: Fallback = Fallback { pad: [0; 4], v: 0 };
+
+/// The value a zero-sized type of tag `t` "holds": the fixed point of its bump v -> (3v+t) mod 1009
+/// (a ZST has no storage, so its value can never change; 505 = 1/2 mod 1009).
+pub const fn zst_val(t: u32) -> u32 {
+    ((MODV - t) * 505) % MODV
+}
+
+/// Zero-sized implementing types (a `Box` of one is a dangling, aligned address).
+macro_rules! zstty {
+    ($name:ident, $tag:expr, $good:expr $(, $attr:meta)?) => {
+        $(#[$attr])?
+        pub struct $name;
+        impl Obj for $name {
+            fn tag(&self) -> u32 {
+                $tag
+            }
+            fn addr(&self) -> usize {
+                self as *const Self as usize
+            }
+            fn val(&self) -> u32 {
+                zst_val($tag)
+            }
+            fn bump(&mut self) -> u32 {
+                (3 * zst_val($tag) + $tag) % MODV
+            }
+        }
+        impl Mk for $name {
+            fn mk(_v: u32) -> Self {
+                $name
+            }
+        }
+        unsafe impl CastFrom<$name> for dyn Obj {
+            fn cast(t: *mut $name) -> *mut Self {
+                if $good {
+                    t
+                } else {
+                    // deliberately wrong: another object altogether
+                    (&FALLBACK as *const Fallback).cast_mut()
+                }
+            }
+        }
+    };
+}
+
+// good flavours: sizes 0 .. 200 bytes, alignments 1 .. 32 (types 2, 4, 8 are ZERO-SIZED)
 objty!(G1, 1, (), (), true);
-objty!(G2, 2, [u8; 3], u8, true);
+zstty!(G2, 2, true);
 objty!(G3, 3, [u64; 4], (), true);
-objty!(G4, 4, u16, [u32; 9], true);
+zstty!(G4, 4, true, repr(align(8)));
 objty!(G5, 5, A16, u64, true);
 objty!(G6, 6, [u64; 12], [u64; 12], true);
 objty!(G7, 7, A32, (), true);
-objty!(G8, 8, (u8, u64), [u16; 5], true);
-// bad flavours: at least 48 bytes in front of and 32 bytes behind the value
+zstty!(G8, 8, true);
+// bad flavours: at least 48 bytes in front of and 32 bytes behind the value; 2, 4, 8 zero-sized
 objty!(B1, 1, [u64; 6], [u64; 4], false);
-objty!(B2, 2, [u64; 7], [u64; 4], false);
+zstty!(B2, 2, false);
 objty!(B3, 3, [u64; 8], [u64; 5], false);
-objty!(B4, 4, [u64; 9], [u64; 4], false);
+zstty!(B4, 4, false);
 objty!(B5, 5, [u64; 6], [u64; 6], false);
 objty!(B6, 6, [u64; 10], [u64; 4], false);
 objty!(B7, 7, [u64; 6], [u64; 7], false);
-objty!(B8, 8, [u64; 11], [u64; 8], false);
+zstty!(B8, 8, false, repr(align(16)));
 
 /// `by_type!(t, bad, f(args))` calls `f::<X>(args)` for the Rust type of model type `t`.
 macro_rules! by_type {
@@ -194,10 +259,11 @@ impl<T: Obj + Resource> LooseObj for T {
 fn rid<T: Resource>(d: u64) -> ResourceId {
     ResourceId::new_with_dynamic_id::<T>(d)
 }
-fn do_insert<T: Mk>(w: &mut World, d: u64, v: u32) -> usize {
+fn do_insert<T: Mk>(w: &mut World, d: u64, v: u32) -> (usize, u32) {
     w.insert_by_id(rid::<T>(d), T::mk(v));
     let g = w.try_fetch_by_id::<T>(rid::<T>(d)).expect("HARNESS: just inserted");
-    Obj::addr(&*g)
+    // the value is read back through the concrete type (a zero-sized type has a fixed one)
+    (Obj::addr(&*g), Obj::val(&*g))
 }
 fn do_remove<T: Mk>(w: &mut World, d: u64) -> bool {
     w.remove_by_id::<T>(rid::<T>(d)).is_some()
@@ -305,7 +371,7 @@ impl Machine {
             let b = m.bad[t];
             let o = by_type!(t, b, do_loose(v));
             la.push(m.aid(o.addr()));
-            lv.push(v);
+            lv.push(o.val());
             m.loose.push(o);
         }
         let mut ev = json!({"ev":"reset","nt":nt,"bad":bad_types,"loose":la,"lv":lv});
@@ -407,7 +473,7 @@ impl Machine {
         let b = self.bad[t];
         // SAFETY: nothing borrows the world
         let w = unsafe { &mut *self.world };
-        let a = by_type!(t, b, do_insert(w, d, v));
+        let (a, v) = by_type!(t, b, do_insert(w, d, v));
         self.cell_raw.insert((t, d), a);
         let a = self.aid(a);
         self.cells.insert((t, d), a);
